@@ -27,6 +27,7 @@ Definition i_open_chacha12 := open_chacha12 chachapoly_open_spec.
 Definition i_seal_chacha12 := seal_chacha12 chachapoly_seal_spec.
 Definition i_open_tls13 (gcm : bool) := open_tls13 (if gcm then gcm_open else chachapoly_open_spec) gcm.
 Definition i_seal_tls13 (gcm : bool) := seal_tls13 (if gcm then gcm_seal else chachapoly_seal_spec).
+Definition i_seal_tls13_block (gcm : bool) := seal_tls13_block (if gcm then gcm_seal else chachapoly_seal_spec).
 Definition i_open_tls13_orig (gcm : bool) := open_tls13_orig (if gcm then gcm_open else chachapoly_open_spec) gcm.
 
 (* the receive loop over a byte stream; the AEAD of a family: GCM for FGcm12/FGcm13, ChaCha20-Poly1305 otherwise *)
